@@ -235,11 +235,28 @@ class World:
         return self.out[-1] if self.out else None
 
     # ---- observations
+    def view(self):
+        """The part of the file system the properties speak about: workflow files (everything outside .gwf),
+        logs, and the two state files.  Other files gwf may keep for itself under .gwf (temporary files, caches,
+        locks) are its own business and deliberately not part of the comparison."""
+        snap = self.vfs.snapshot()
+        keep = {}
+        gwfdir = ROOT + "/.gwf/"
+        for path, val in snap.items():
+            if not path.startswith(gwfdir) or path.startswith(gwfdir + "logs/") or path in (self.tracked_path(), self.hashes_path()):
+                keep[path] = val
+        return keep
+
     def log_records(self, level=logging.INFO):
         return [r for r in CAPTURE.records if r[1] >= level]
 
     def would_submit(self):
-        return [str(r[3][0]) for r in CAPTURE.records if r[2] == "Would submit %s"]
+        """Targets a dry run announces (any INFO record that speaks of submitting and carries a target; wording is free)."""
+        out = []
+        for name, level, msg, args in CAPTURE.records:
+            if level >= logging.INFO and "ubmit" in str(msg) and args and hasattr(args[0], "name"):
+                out.append(str(args[0].name))
+        return out
 
     def clear_records(self):
         del CAPTURE.records[:]
